@@ -1,0 +1,26 @@
+// SPDX-FileCopyrightText: 2022-present Intel Corporation
+//
+// SPDX-License-Identifier: Apache-2.0
+
+//go:build verif
+
+// Contracts for the deductive verifier in /verif (govc). Comment-only: this file contains no code
+// and is excluded from every build that does not set the "verif" tag.
+
+package admin
+
+//@ import configapi "github.com/onosproject/onos-api/go/onos/config/v2"
+//@ import codes "google.golang.org/grpc/codes"
+
+//@ func (Server).RollbackTransaction
+//@   props C08, C06
+//@   requires req != nil
+//@   probe evState: evState(transactionEvent)
+//@   probe evSync: ite(evSync(transactionEvent), 1, 0)
+//@   probe evFailureType: ite(transactionEvent.Transaction.Status.Failure == nil, 0 - 1, transactionEvent.Transaction.Status.Failure.Type)
+//@   ensures {C08} success-only-if-reached: err == nil ==> result0 != nil && evReached(transactionEvent) && txnCreates == old(txnCreates) + 1
+//@   ensures {C08} failure-class: evState(transactionEvent) == configapi.TransactionStatus_FAILED && !evReached(transactionEvent) ==> err != nil && result0 == nil && (transactionEvent.Transaction.Status.Failure != nil ==> grpcCodeOf(err) == codeOfFailure(transactionEvent.Transaction.Status.Failure.Type)) && (transactionEvent.Transaction.Status.Failure == nil ==> grpcCodeOf(err) == codes.Unknown)
+//@   loop 1 backedge {C08} no-wait-on-finished: !evReached(transactionEvent) && evState(transactionEvent) != configapi.TransactionStatus_FAILED
+//@   ensures {C06,C08} rollback-is-logged-as-rollback-of-index: txnCreates > old(txnCreates) ==> txnCreates == old(txnCreates) + 1 && lastCreatedTxnRollbackIndex == req.Index && lastCreatedTxnSync
+//@   ensures {C06} rollback-request-writes-nothing-else: cfgValueWrites == old(cfgValueWrites) && cfgStatusWrites == old(cfgStatusWrites) && proposalCreates == old(proposalCreates) && deviceSetCalls == old(deviceSetCalls)
+//@   loop 1 invariant txnCreates == old(txnCreates) + 1 && lastCreatedTxnRollbackIndex == req.Index && lastCreatedTxnSync && cfgValueWrites == old(cfgValueWrites) && cfgStatusWrites == old(cfgStatusWrites) && proposalCreates == old(proposalCreates) && deviceSetCalls == old(deviceSetCalls)
